@@ -180,7 +180,25 @@ func runC16(c *ctx) {
 			if uj == nil {
 				uj = []interface{}{}
 			}
+			unwatched := u > 0 && r.chance(12)
+			if unwatched {
+				// every cluster has been idle and was unsubscribed by the cleaner; the control plane's next (still complete)
+				// response is accepted all the same: nothing of it is subscribed, so every breaker entry is disabled
+				for _, nm := range names {
+					w.m.VerifWatch(xdsresource.ClusterType, nm, true)
+				}
+				w.settle()
+				uj = []interface{}{}
+				prevNames = prevNames[:0]
+				c.count("updates-with-nothing-subscribed", 1)
+			}
 			w.push(mkResp(xdsresource.ClusterTypeURL, verStr(r, u), fmt.Sprintf("n%d", u+1), anys))
+			if unwatched {
+				for _, nm := range names {
+					w.m.VerifWatch(xdsresource.ClusterType, nm, false)
+				}
+				w.settle()
+			}
 			updates = append(updates, uj)
 			for _, b := range brs {
 				if b.suite != nil {
